@@ -109,6 +109,17 @@ func c13SetTLSVersModel(c *Ctx) {
 	}
 	skipsGrease := false
 	okMax, okMin := false, false
+	// an update that sits in the else branch of another if only runs when that one did not
+	elseOf := map[*ast.IfStmt]bool{}
+	ast.Inspect(body, func(n ast.Node) bool {
+		if is, ok := n.(*ast.IfStmt); ok {
+			if e, ok := is.Else.(*ast.IfStmt); ok {
+				elseOf[e] = true
+			}
+		}
+		return true
+	})
+	dependent := false
 	ast.Inspect(body, func(n ast.Node) bool {
 		is, ok := n.(*ast.IfStmt)
 		if !ok {
@@ -141,11 +152,15 @@ func c13SetTLSVersModel(c *Ctx) {
 				case token.GTR:
 					okMin = true // running minimum
 				}
+				if (op == token.LSS || op == token.GTR) && (elseOf[is] || is.Else != nil) {
+					dependent = true
+				}
 			}
 		}
 		return true
 	})
 	r.Check(skipsGrease, "C13.4", "SetTLSVers:scan-skips-GREASE", c.Pos(fn.Decl), "GREASE entries are skipped when deriving the range", "GREASE entries of supported_versions take part in the derived range")
 	r.Check(okMax && okMin, "C13.4", "SetTLSVers:scan-min-max", c.Pos(fn.Decl), "range is [smallest, largest] listed version", "the derived range is not the running minimum/maximum of the listed versions")
+	r.Check(!dependent, "C13.4", "SetTLSVers:scan-updates-independent", c.Pos(fn.Decl), "the minimum and the maximum update are separate statements (both run for the first / only entry)", "the minimum and maximum updates are chained with else: for a list with one version, or listed lowest first, one bound stays 0 and ApplyPreset fails (or accepts a range the hello does not advertise)")
 	r.Floor("C13.4", 5)
 }
